@@ -108,17 +108,18 @@ def build(tier, seed):
                  "level j or an outer level, outer before inner, dividers render nothing, no heading ends the page"))
     # O3: headings at the top of the page (render step 7)
     obs.append(Ob(
-        oid="O3.top_headings", sig="a: str, b: str, na: bool, nb: bool, new_page: bool, pr: int, has_info: bool",
-        pre=["len(a) == 1 and len(b) == 1", "0 <= pr <= 1"], header=HDR5, timeout=T,
+        oid="O3.top_headings", sig="a: str, b: str, na: bool, nb: bool, new_page: bool, pr: int, has_info: bool, fa: int, fb: int",
+        pre=["len(a) == 1 and len(b) == 1", "0 <= pr <= 1", "0 <= fa <= 3 and 0 <= fb <= 3"], header=HDR5, timeout=T,
         body=r'''
     r = token_renderer()
     r._render_column_headers = lambda d, p: [("HROW",)]
     r._render_body = lambda d, p: [("ROW", "r0", 0)]
     gv = {}
+    # group values are data: any string, and the falsy values "" / 0 / False of string, numeric and boolean key columns
     if not na:
-        gv["g"] = a
+        gv["g"] = a if fa == 0 else ("" if fa == 1 else (0 if fa == 2 else False))
     if not nb:
-        gv["h"] = b
+        gv["h"] = b if fb == 0 else ("" if fb == 1 else (0 if fb == 2 else False))
     info = {"group_by_columns": ["g", "h"], "group_values": gv} if has_info else None
     doc = NS(rtf_title=None, rtf_subline=None, rtf_page=NS(page_title="all", page_footnote="last", page_source="last", col_width=6.0),
              rtf_figure=None, rtf_column_header=[object()], rtf_footnote=None, rtf_source=None, df=None,
@@ -128,13 +129,13 @@ def build(tier, seed):
     out = [x for x in PageRenderer.render(r, doc, page) if isinstance(x, tuple)]
     exp = [("HROW",)]
     if has_info and (not new_page or pr == 1):
-        exp += [("SPAN", v, 0) for v in gv.values()]
+        exp += [("SPAN", v if isinstance(v, str) else str(v), 0) for v in gv.values()]
     exp.append(("ROW", "r0", 0))
     return out == exp
 ''',
         funcs=["rtflite.encoding.renderer:PageRenderer.render"],
         stubs=["services -> role tokens", "_render_body/_render_column_headers -> one token each"],
-        bounds="two page_by levels, values symbolic one-character strings or absent (divider), new_page/pageby_row symbolic",
+        bounds="two page_by levels, values symbolic one-character strings, '' / 0 / False, or absent (divider), new_page/pageby_row symbolic",
         what="headings for all non-divider levels precede the body, after the column headers, in page_by order, iff page_by "
              "is shown as spanning rows (not new_page or pageby_row != 'column')"))
     # O4: never stranded / always under its heading, on the chained pipeline
